@@ -816,8 +816,8 @@ def raise_inventory(ctx, rule: str):
                 if isinstance(raw, FuncInfo) and id(raw) not in seen:
                     seen.add(id(raw))
                     match_funcs.append(raw)
-    if len(match_funcs) < 3:
-        raise AnalysisError("expected at least three _match implementations on the MRO of the kit classes, found %d" % len(match_funcs))
+    if len(match_funcs) < 2:
+        raise AnalysisError("expected at least two _match implementations on the MRO of the kit classes, found %d" % len(match_funcs))
     inv_seq = p.get_class("moclo.errors.InvalidSequence")
     for fi in match_funcs:
         for node in ast.walk(fi.node):
@@ -827,7 +827,7 @@ def raise_inventory(ctx, rule: str):
                 r.ob(rule + ".match-raises", "%s@%s" % (fi.qualname, _norm_stmt(fi.module.segment(node))), ok,
                      "an invalid record must surface as InvalidSequence (is_valid turns exactly that into False); this raises %s"
                      % (cls.qualname if isinstance(cls, ClassInfo) else cls), "%s:%d" % (fi.module.relpath, node.lineno))
-    r.floor(rule + ".match-raises", 3)
+    r.floor(rule + ".match-raises", 2)
     # is_valid's handler
     iv = p.get_func("moclo.core._structured.StructuredRecord.is_valid")
     handlers = [h for n in ast.walk(iv.node) if isinstance(n, ast.Try) for h in n.handlers]
